@@ -168,7 +168,7 @@ impl<Pk: miniscript::MiniscriptKey, Ctx: ScriptContext> Comb for Miniscript<Pk, 
     }
 }
 
-const MS_OPCODES: &[u8] = &[
+pub const MS_OPCODES: &[u8] = &[
     rs::OP_0, rs::OP_1, 0x52, 0x53, 0x60, rs::OP_IF, rs::OP_NOTIF, rs::OP_ELSE, rs::OP_ENDIF, rs::OP_VERIFY,
     rs::OP_TOALTSTACK, rs::OP_FROMALTSTACK, rs::OP_IFDUP, rs::OP_DUP, rs::OP_SWAP, rs::OP_SIZE, rs::OP_EQUAL,
     rs::OP_EQUALVERIFY, rs::OP_0NOTEQUAL, rs::OP_ADD, rs::OP_BOOLAND, rs::OP_BOOLOR, rs::OP_NUMEQUAL,
@@ -177,7 +177,7 @@ const MS_OPCODES: &[u8] = &[
     rs::OP_CHECKSIGADD, rs::OP_DROP, rs::OP_NOT, 0x4f, 0x61, 0x6a,
 ];
 
-fn mutate_script(rng: &mut Rng, b: &[u8]) -> Vec<u8> {
+pub fn mutate_script(rng: &mut Rng, b: &[u8]) -> Vec<u8> {
     let ops = match rs::parse(b) {
         Ok(o) => o,
         Err(_) => return b.to_vec(),
@@ -316,7 +316,7 @@ where
     }
 }
 
-fn random_script(rng: &mut Rng, world: &World) -> Vec<u8> {
+pub fn random_script(rng: &mut Rng, world: &World) -> Vec<u8> {
     let n = 1 + rng.below(24);
     let mut out = vec![];
     for _ in 0..n {
